@@ -35,6 +35,22 @@ B8 = b'ABCDEFGH'; B16 = b'0123456789abcdef'; IV16 = bytes(range(100, 116)); IV8 
 TEXT = (b'The quick brown fox jumps over the lazy dog. ' * 8)[:300]
 TEXT2 = bytes((37 * i * i + 11 * i) & 0xff for i in range(400))
 
+class Family(object):
+    """constructor of a family of objects that are alive together.  In a pristine oracle process only the member that the
+    call touches is constructed (lazy), so that the expected value comes from a lone, freshly constructed object."""
+    def __init__(self, *ctors):
+        self.ctors = ctors
+    def __call__(self):
+        return [c() for c in self.ctors]
+    def lazy(self):
+        ctors = self.ctors
+        class Lazy(object):
+            def __init__(s): s.made = {}
+            def __getitem__(s, i):
+                if i not in s.made: s.made[i] = ctors[i]()
+                return s.made[i]
+        return Lazy()
+
 def norm(x):
     if isinstance(x, (bytes, bytearray)): return bytes(x)
     if isinstance(x, (tuple, list)): return tuple(norm(y) for y in x)
@@ -97,7 +113,8 @@ def kinds():
     sk = [('h(M1)', lambda o: o(M1)), ('h(empty)', lambda o: o(M0)), ('h(M2)', lambda o: o(M2)), ('h(M1,bitlen=13)', lambda o: o(M1, 13)), ('h(int)!', lambda o: o(77))]
     K['Skein256'] = (lambda: Skein(256, 256), sk, None)
     K['Skein512-mac-tree'] = (lambda: Skein(512, 520, key=b'k' * 9, prs=b'p', nonce=b'n', Yl=1, Yf=1, Ym=2), sk[:3] + [sk[4]], None)
-    K['HMAC-SHA256'] = (lambda: HMAC(SHA2(256), b'key'), [('mac(M1)', lambda o: o(M1)), ('mac(empty)', lambda o: o(M0)), ('mac(M2)', lambda o: o(M2)), ('mac(str)!', lambda o: o('text'))], None)
+    K['HMAC-SHA256'] = (lambda: HMAC(SHA2(256), b'key'), [('mac(M1)', lambda o: o(M1)), ('mac(empty)', lambda o: o(M0)), ('mac(M2)', lambda o: o(M2)), ('mac(str)!', lambda o: o('text')),
+                                                           ('@setkey(k2);mac(M1);setkey(key)', lambda o: (o.setkey(b'another key'), o(M1), o.setkey(b'key'))[1])], None)
     K['HMAC-MD5-longkey'] = (lambda: HMAC(MD5(), M2), [('mac(M1)', lambda o: o(M1)), ('mac(empty)', lambda o: o(M0)), ('mac(str)!', lambda o: o('text'))], None)
     tl = [('h(TEXT,force)', lambda o: o(TEXT, True)), ('h(TEXT2)', lambda o: o(TEXT2)), ('h(short)->None', lambda o: o(M1)), ('h(TEXT) no force', lambda o: o(TEXT[:200])),
           ('h(const)->None', lambda o: o(b'a' * 300)), ('h(int)!', lambda o: o(12)), ('~update(TEXT)', lambda o: (o.update(TEXT), None)[1])]
@@ -144,32 +161,21 @@ def kinds():
                                               ('dynprog(16)', lambda o: o.dynprog(list(IT), 16)), ('exactsum(bad item)!', lambda o: o.exactsum([(0, 3), 5, (1, 2)], 5))], None)
     # ---- families: objects of one class with *different* configurations alive together (call = use of one member) ----
     KZ = K16[:8] + bytes(8)
-    K['AES-family (integer-equal keys)'] = (lambda: [AES(KZ), AES(KZ + bytes(8)), AES(KZ + bytes(16))],
-        [('128.enc', lambda o: o[0].enc(B16)), ('192.enc', lambda o: o[1].enc(B16)), ('256.enc', lambda o: o[2].enc(B16)), ('128.dec', lambda o: o[0].dec(B16)), ('256.dec', lambda o: o[2].dec(B16))], None)
-    K['Threefish-family'] = (lambda: [Threefish(K32, IV16), Threefish(K32 + K32, IV16), Threefish(M2[:128], IV16)],
-        [('256.enc', lambda o: o[0].enc(K32)), ('512.enc', lambda o: o[1].enc(M2[:64])), ('1024.enc', lambda o: o[2].enc(M2[:128])),
+    K['AES-family (integer-equal keys)'] = (Family(lambda: AES(KZ), lambda: AES(KZ + bytes(8)), lambda: AES(KZ + bytes(16))),        [('128.enc', lambda o: o[0].enc(B16)), ('192.enc', lambda o: o[1].enc(B16)), ('256.enc', lambda o: o[2].enc(B16)), ('128.dec', lambda o: o[0].dec(B16)), ('256.dec', lambda o: o[2].dec(B16))], None)
+    K['Threefish-family'] = (Family(lambda: Threefish(K32, IV16), lambda: Threefish(K32 + K32, IV16), lambda: Threefish(M2[:128], IV16)),        [('256.enc', lambda o: o[0].enc(K32)), ('512.enc', lambda o: o[1].enc(M2[:64])), ('1024.enc', lambda o: o[2].enc(M2[:128])),
          ('256.dec', lambda o: o[0].dec(K32)), ('512.dec', lambda o: o[1].dec(M2[:64])), ('1024.dec', lambda o: o[2].dec(M2[:128]))], None)
-    K['Skein-family (same No)'] = (lambda: [Skein(256, 256), Skein(512, 256), Skein(1024, 256), Skein(512, 256, key=b'k')],
-        [('256.h(M1)', lambda o: o[0](M1)), ('512.h(M1)', lambda o: o[1](M1)), ('1024.h(M1)', lambda o: o[2](M1)), ('512k.h(M1)', lambda o: o[3](M1)), ('512.h(empty)', lambda o: o[1](M0))], None)
-    K['Chacha/Salsa-family'] = (lambda: [Chacha(Bits(K16, bitorder=1), 8), Chacha(Bits(K32, bitorder=1), 12), Salsa20(Bits(K16, bitorder=1)), Chacha(Bits(IV16, bitorder=1), 8)],
-        [('c16r8.enc', lambda o: o[0].enc(V(), M1)), ('c32r12.enc', lambda o: o[1].enc(V(), M1)), ('s16.enc', lambda o: o[2].enc(V(), M1)), ('c16b.enc', lambda o: o[3].enc(V2(), M1)),
+    K['Skein-family (same No)'] = (Family(lambda: Skein(256, 256), lambda: Skein(512, 256), lambda: Skein(1024, 256), lambda: Skein(512, 256, key=b'k')),        [('256.h(M1)', lambda o: o[0](M1)), ('512.h(M1)', lambda o: o[1](M1)), ('1024.h(M1)', lambda o: o[2](M1)), ('512k.h(M1)', lambda o: o[3](M1)), ('512.h(empty)', lambda o: o[1](M0))], None)
+    K['Chacha/Salsa-family'] = (Family(lambda: Chacha(Bits(K16, bitorder=1), 8), lambda: Chacha(Bits(K32, bitorder=1), 12), lambda: Salsa20(Bits(K16, bitorder=1)), lambda: Chacha(Bits(IV16, bitorder=1), 8)),        [('c16r8.enc', lambda o: o[0].enc(V(), M1)), ('c32r12.enc', lambda o: o[1].enc(V(), M1)), ('s16.enc', lambda o: o[2].enc(V(), M1)), ('c16b.enc', lambda o: o[3].enc(V2(), M1)),
          ('c16r8.enc(M2)', lambda o: o[0].enc(V2(), M2))], None)
-    K['Nilsimsa-family'] = (lambda: [Nilsimsa(53), Nilsimsa(17), Nilsimsa(99)],
-        [('53.h', lambda o: o[0](TEXT)), ('17.h', lambda o: o[1](TEXT)), ('99.h', lambda o: o[2](TEXT)), ('53.h(M1)', lambda o: o[0](M1))], None)
-    K['TLSH-family'] = (lambda: [TLSH(128), TLSH(256, 4, 3), TLSH(48, 8, 1)],
-        [('128.h', lambda o: o[0](TEXT2, True)), ('256.h', lambda o: o[1](TEXT2, True)), ('48.h', lambda o: o[2](TEXT2, True)), ('128.h(short)', lambda o: o[0](M1))], None)
-    K['SHA-family'] = (lambda: [SHA2(256), SHA1(1), SHA2(224), SHA2(512), SHA2(512, 256), MD5()],
-        [('sha256.h', lambda o: o[0](M2)), ('sha1.h', lambda o: o[1](M2)), ('sha224.h', lambda o: o[2](M2)), ('sha512.h', lambda o: o[3](M2)), ('sha512/256.h', lambda o: o[4](M2)), ('md5.h', lambda o: o[5](M2)),
+    K['Nilsimsa-family'] = (Family(lambda: Nilsimsa(53), lambda: Nilsimsa(17), lambda: Nilsimsa(99)),        [('53.h', lambda o: o[0](TEXT)), ('17.h', lambda o: o[1](TEXT)), ('99.h', lambda o: o[2](TEXT)), ('53.h(M1)', lambda o: o[0](M1))], None)
+    K['TLSH-family'] = (Family(lambda: TLSH(128), lambda: TLSH(256, 4, 3), lambda: TLSH(48, 8, 1)),        [('128.h', lambda o: o[0](TEXT2, True)), ('256.h', lambda o: o[1](TEXT2, True)), ('48.h', lambda o: o[2](TEXT2, True)), ('128.h(short)', lambda o: o[0](M1))], None)
+    K['SHA-family'] = (Family(lambda: SHA2(256), lambda: SHA1(1), lambda: SHA2(224), lambda: SHA2(512), lambda: SHA2(512, 256), lambda: MD5()),        [('sha256.h', lambda o: o[0](M2)), ('sha1.h', lambda o: o[1](M2)), ('sha224.h', lambda o: o[2](M2)), ('sha512.h', lambda o: o[3](M2)), ('sha512/256.h', lambda o: o[4](M2)), ('md5.h', lambda o: o[5](M2)),
          ('~sha256.update', lambda o: (o[0].update(bytes(64)), None)[1]), ('~sha1.initstate+update', lambda o: (o[1].initstate(), o[1].update(bytes(64)), None)[2])], None)
-    K['Keccak-family'] = (lambda: [Keccak(b=1600, c=512, len=256), Keccak(b=200, r=40, len=160), SHA3(256), Keccak(b=400, r=144, len=64)],
-        [('1600.h', lambda o: o[0](M1)), ('200.h', lambda o: o[1](M1)), ('sha3.h', lambda o: o[2](M1)), ('400.h', lambda o: o[3](M1)), ('1600.h(r=576)', lambda o: o[0](M1, r=576))], None)
-    K['Blake-family'] = (lambda: [Blake(256), Blake(224), Blake(512), Blake2(256), Blake2(512)],
-        [('b256.h', lambda o: o[0](M2)), ('b224.h', lambda o: o[1](M2)), ('b512.h', lambda o: o[2](M2)), ('b2s.h', lambda o: o[3](M2)), ('b2b.h', lambda o: o[4](M2)), ('b2s.h(outlen=7)', lambda o: o[3](M2, outlen=7))], None)
-    def mk_md6f():
-        hs = [MD6(256, b'', 64), MD6(128, b'key', 0), MD6(512, b'', 1)]
-        for h in hs: h.rounds = 2
-        return hs
-    K['MD6-family'] = (mk_md6f, [('256.h', lambda o: o[0](M2)), ('128k.h', lambda o: o[1](M2)), ('512.h', lambda o: o[2](M3 + M3)), ('256.h(bitlen)', lambda o: o[0](M1, 77))], None)
+    K['Keccak-family'] = (Family(lambda: Keccak(b=1600, c=512, len=256), lambda: Keccak(b=200, r=40, len=160), lambda: SHA3(256), lambda: Keccak(b=400, r=144, len=64)),        [('1600.h', lambda o: o[0](M1)), ('200.h', lambda o: o[1](M1)), ('sha3.h', lambda o: o[2](M1)), ('400.h', lambda o: o[3](M1)), ('1600.h(r=576)', lambda o: o[0](M1, r=576))], None)
+    K['Blake-family'] = (Family(lambda: Blake(256), lambda: Blake(224), lambda: Blake(512), lambda: Blake2(256), lambda: Blake2(512)),        [('b256.h', lambda o: o[0](M2)), ('b224.h', lambda o: o[1](M2)), ('b512.h', lambda o: o[2](M2)), ('b2s.h', lambda o: o[3](M2)), ('b2b.h', lambda o: o[4](M2)), ('b2s.h(outlen=7)', lambda o: o[3](M2, outlen=7))], None)
+    def md6r(d, key, L):
+        h = MD6(d, key, L); h.rounds = 2; return h
+    K['MD6-family'] = (Family(lambda: md6r(256, b'', 64), lambda: md6r(128, b'key', 0), lambda: md6r(512, b'', 1)), [('256.h', lambda o: o[0](M2)), ('128k.h', lambda o: o[1](M2)), ('512.h', lambda o: o[2](M3 + M3)), ('256.h(bitlen)', lambda o: o[0](M1, 77))], None)
     K['HMAC-family (shared hash object)'] = (lambda: (lambda h: [HMAC(h, b'k1'), HMAC(h, M2), HMAC(SHA2(256), b'k1')])(SHA2(256)),
         [('mac1', lambda o: o[0](M1)), ('mac2', lambda o: o[1](M1)), ('mac3', lambda o: o[2](M1)), ('mac1(empty)', lambda o: o[0](M0))], None)
     K['mode-family (shared cipher object)'] = (lambda: (lambda c: [ECB(c), CBC(c, IV16), CTR(c, IV16), CTS_ECB(c)])(AES(K16)),
@@ -191,7 +197,7 @@ def kind_names():
             'mode-family (shared cipher object)']
 
 ALPHA = {'SHA1': 7, 'SHA0': 4, 'SHA2-256': 7, 'SHA2-512/224': 7, 'MD4': 7, 'MD5': 7, 'SHA3-256': 4, 'Keccak': 8, 'Keccak-200': 4, 'MD6': 5, 'Blake256': 7, 'Blake512': 5,
-         'Blake2b': 9, 'Blake2s': 9, 'Skein256': 5, 'Skein512-mac-tree': 4, 'HMAC-SHA256': 4, 'HMAC-MD5-longkey': 3, 'TLSH128': 7, 'TLSH48-3': 5, 'Nilsimsa': 6,
+         'Blake2b': 9, 'Blake2s': 9, 'Skein256': 5, 'Skein512-mac-tree': 4, 'HMAC-SHA256': 5, 'HMAC-MD5-longkey': 3, 'TLSH128': 7, 'TLSH48-3': 5, 'Nilsimsa': 6,
          'AES128': 5, 'AES256': 3, 'DES': 5, 'TDEA': 4, 'Serpent': 4, 'Threefish256': 5, 'ECB-AES': 7, 'CBC-AES': 7, 'CBC-DES-X923': 7, 'ECB-TDEA': 7,
          'ECB-AES-nopadding': 4, 'CTR-AES': 5, 'CTR-AES-wrapping-counter': 4, 'CTS_ECB-AES': 5, 'CTS_CBC-DES': 4, 'Salsa20': 7, 'Chacha-128-12': 5, 'crc (functions)': 6, 'knapsack (functions)': 5, 'AES-family (integer-equal keys)': 5, 'Threefish-family': 6, 'Skein-family (same No)': 5,
          'Chacha/Salsa-family': 5, 'Nilsimsa-family': 4, 'TLSH-family': 4, 'SHA-family': 8, 'Keccak-family': 5, 'Blake-family': 6, 'MD6-family': 4,
@@ -330,6 +336,8 @@ def run(case, ctx, rng):
     elif k == 'fault':
         ci = case['call']
         ctx.cls((kind, 'fault', ci))
+        if calls[ci][0].startswith('@'):
+            return            # a composite call that re-configures the object and restores it: interrupting it legitimately leaves the new configuration
         # how many crysp lines does the call execute on a fresh object?
         _, N, _ = sanitize.run_counting(lambda: calls[ci][1](new()))
         if N == 0:
@@ -369,4 +377,5 @@ if __name__ == '__main__':
     if len(sys.argv) >= 4 and sys.argv[1] == '--fresh':
         kind, ci = sys.argv[2], int(sys.argv[3])
         new, calls, _ = K()[kind]
-        print(json.dumps(encode(norm(call(lambda: calls[ci][1](new()))))))
+        make = new.lazy if isinstance(new, Family) else new
+        print(json.dumps(encode(norm(call(lambda: calls[ci][1](make()))))))
